@@ -32,7 +32,9 @@ EXTENDS Naturals, Sequences, FiniteSets
 CONSTANTS XValid,        \* the delivered block passes validation in its parent's state
           XValidated,    \* the delivered block is validated at all (relay delivery, or a bulk-download height that is validated)
           MinerOn,       \* a found block B is handled concurrently
-          SaveAfterValidation, SelectiveClear, AtomicRollback
+          SaveAfterValidation, SelectiveClear, AtomicRollback,
+          MinerHandOverValidated   \* M5 is set_coinstate(state) with validated=True (the default the miner relies on): the found block becomes
+                                   \* part of the last validated state.  FALSE: the necessity run for I_C09_RejectionLeavesStateAsItWas
 VARIABLES served, lastValid, buffer, disk, bcast, net, miner
 vars == << served, lastValid, buffer, disk, bcast, net, miner >>
 X == "X"
@@ -41,11 +43,11 @@ G == "G"
 Range(s) == {s[i] : i \in 1..Len(s)}
 
 Init == /\ served = {G} /\ lastValid = {G} /\ buffer = << >> /\ disk = {G} /\ bcast = {}
-        /\ net = [pc |-> "N1", prior |-> {}, changed |-> {}, tmp |-> {}]
+        /\ net = [pc |-> "N1", prior |-> {}, changed |-> {}, tmp |-> {}, quiet |-> FALSE]
         /\ miner = [pc |-> IF MinerOn THEN "M1" ELSE "done", snap |-> {}]
 
 NGo(p) == net' = [net EXCEPT !.pc = p]
-N1 == net.pc = "N1" /\ net' = [net EXCEPT !.pc = "N3", !.prior = served] /\ UNCHANGED << served, lastValid, buffer, disk, bcast, miner >>
+N1 == net.pc = "N1" /\ net' = [net EXCEPT !.pc = "N3", !.prior = served, !.quiet = (miner.pc = "done")] /\ UNCHANGED << served, lastValid, buffer, disk, bcast, miner >>
 N3 == /\ net.pc = "N3"
       /\ net' = [net EXCEPT !.pc = IF ~SaveAfterValidation \/ ~XValidated THEN "N4" ELSE "N5", !.changed = net.prior \cup {X}]
       /\ UNCHANGED << served, lastValid, buffer, disk, bcast, miner >>
@@ -70,7 +72,7 @@ N9 == net.pc = "N9" /\ served' = net.changed /\ NGo("done") /\ UNCHANGED << last
 MGo(p) == miner' = [miner EXCEPT !.pc = p]
 M1 == miner.pc = "M1" /\ miner' = [pc |-> "M4", snap |-> served] /\ UNCHANGED << served, lastValid, buffer, disk, bcast, net >>
 M4 == miner.pc = "M4" /\ miner' = [pc |-> "M5", snap |-> miner.snap \cup {B}] /\ UNCHANGED << served, lastValid, buffer, disk, bcast, net >>
-M5 == miner.pc = "M5" /\ served' = miner.snap /\ lastValid' = miner.snap /\ MGo("M6") /\ UNCHANGED << buffer, disk, bcast, net >>
+M5 == miner.pc = "M5" /\ served' = miner.snap /\ lastValid' = (IF MinerHandOverValidated THEN miner.snap ELSE lastValid) /\ MGo("M6") /\ UNCHANGED << buffer, disk, bcast, net >>
 M6 == miner.pc = "M6" /\ bcast' = bcast \cup {B} /\ MGo("M7") /\ UNCHANGED << served, lastValid, buffer, disk, net >>
 M7 == miner.pc = "M7" /\ buffer' = Append(buffer, B) /\ MGo("M8") /\ UNCHANGED << served, lastValid, disk, bcast, net >>
 M8 == miner.pc = "M8" /\ disk' = disk \cup Range(buffer) /\ buffer' = << >> /\ MGo("done") /\ UNCHANGED << served, lastValid, bcast, net >>
@@ -85,6 +87,8 @@ Quiet == net.pc = "done" /\ miner.pc = "done"
 (* C09: a rejected block never appears in the store, nor in the served state once its handling is over *)
 I_C09_RejectedNotStored == Rejected => X \notin disk
 I_C09_RejectedNotServed == (Rejected /\ net.pc = "done") => X \notin served
+(* C01 / C09: "the chain state the node held before the attempt is left exactly as it was" -- when nothing else happens during the attempt *)
+I_C09_RejectionLeavesStateAsItWas == (Rejected /\ net.pc = "done" /\ net.quiet) => served = net.prior
 (* C09: an accepted relay block is written to the store *)
 I_C09_AcceptedStored == (XValidated /\ XValid /\ net.pc \in {"N8", "done"}) => X \in disk
 (* C12: the found block is written to the block store and broadcast; it is part of the served state when the hand-over is made *)
